@@ -250,6 +250,35 @@ def run_shard(ctx):
                 rs[0][hs.index("namespaces")] = ((rs[0][hs.index("namespaces")] or "") + ' ex="http://example.org/ex"').strip()
             ctx.ctr("mixed_bool_number_columns")
             compare_all(ctx, form, mx, sig, "typed-mixed-column", ["xlsx", "xls"], rng)
+        # (2z) markdown delimiter rows (| --- | --- |, |:--|--:|) under the header rows, and a header that occurs twice: the same outcome from every container
+        if i % 6 == 2 and md_representable(sheets):
+            ref = drive.convert_sheets(sheets, fmt="dict", args=dict(form.args))
+            for sep in (("---", True), ("---", False), (":---:", True), ("-", True), (":--", False)):
+                o = drive.convert_sheets(sheets, fmt="md", args=dict(form.args), render_kw={"separator": sep})
+                ctx.ctr("renderings_compared")
+                ctx.ctr("md_delimiter_row_cases")
+                ctx.case(sig=f"{sig}|md|delimiter-row|{sep}")
+                d = outcome_diff(ref, o)
+                if d:
+                    ctx.viol(f"differs:md:delimiter-row:{'spaced' if sep[1] else 'tight'}:{d[0]}", f"markdown with the delimiter row {sep[0]!r} ({'with' if sep[1] else 'without'} blanks) under each header row: {d[1]}",
+                             common.witness(form, fmt="md", variant="delimiter-row", separator=list(sep)))
+        if i % 6 == 4:
+            dh, drows = sheets["survey"]
+            if "label" in dh:
+                dup = dict(sheets)
+                at = dh.index("label")
+                dup["survey"] = (list(dh) + ["label"], [list(r) + [f"second {k}" if r[at] else None] for k, r in enumerate(drows)])
+                outs = {}
+                for fmt in ["xlsx", "xls"] + (["md", "csv"] if md_representable(dup) else []):
+                    o = drive.convert_sheets(dup, fmt=fmt, args=dict(form.args))
+                    outs[fmt] = "converted" if o.ok else ("refused" if o.exc_is_pyxform else f"crashed:{o.exc_type}")
+                    ctx.ctr("renderings_compared")
+                ctx.ctr("duplicate_header_cases")
+                ctx.case(sig=f"{sig}|duplicate-header")
+                if len(set(outs.values())) > 1:
+                    odd = sorted(f_ for f_, v in outs.items() if v != outs["xlsx"])
+                    ctx.viol(f"differs:{'+'.join(odd)}:duplicate-header:outcome", f"a survey sheet with two 'label' columns: {outs} (a text container keeps the last cell and drops the other without a word)",
+                             common.witness(form, fmt=odd[0], variant="duplicate-header"))
         # (2b) multi-line cells: spreadsheets and quoted CSV fields carry embedded line breaks (markdown cannot)
         if i % 3 == 0:
             ml = {}
